@@ -11,6 +11,7 @@ import PynModel.Core.Trial
 import PynModel.Core.Interp
 import PynModel.Core.ISetOps
 import PynModel.Process.RandomizeGroup
+import PynModel.Core.GroupBy
 /-!
 # Line protocol, part 2: container-level operations (series constructor and histories)
 `snew <t> <rows> <sup|none>`            → `t|rows|sup|num/den`
@@ -392,6 +393,31 @@ def rgroupStep (toks : List String) : String :=
     | _, _ => "bad-op"
   | _ => "bad-op"
 
+/-- `groupby <col>` → `v:i.i;v:i` · `groupby2 <c1> <c2>` → `a.b:i.i;…` · `getgroup <tags> <col> <v>` → tags of the group or `ERR nogroup`
+(a history is driven by the harness: it sends the column the object carries at the time of each call) -/
+def showIdx (l : List Nat) : String := if l.isEmpty then "-" else ".".intercalate (l.map toString)
+def gbStep (toks : List String) : String :=
+  match toks with
+  | ["groupby", c] =>
+    match parseNatArr c with
+    | some c => ";".intercalate ((groupBy c.toList).map fun g => toString g.1 ++ ":" ++ showIdx g.2)
+    | none => "bad-op"
+  | ["groupby2", c1, c2] =>
+    match parseNatArr c1, parseNatArr c2 with
+    | some c1, some c2 =>
+      if c1.size == c2.size then
+        ";".intercalate ((groupBy2 c1.toList c2.toList).map fun g => toString g.1.1 ++ "." ++ toString g.1.2 ++ ":" ++ showIdx g.2)
+      else "bad-op"
+    | _, _ => "bad-op"
+  | ["getgroup", t, c, v] =>
+    match parseNatArr t, parseNatArr c, v.toNat? with
+    | some t, some c, some v =>
+      match getGroup t.toList c.toList v with
+      | some r => showIdx r
+      | none => "ERR nogroup"
+    | _, _, _ => "bad-op"
+  | _ => "bad-op"
+
 def stepAll (line : String) : String :=
   let toks := (line.trimAscii.toString.splitOn " ").filter (· ≠ "")
   match toks with
@@ -421,6 +447,9 @@ def stepAll (line : String) : String :=
   | "gshift" :: _ => rgroupStep toks
   | "gjitter" :: _ => rgroupStep toks
   | "gshuffle" :: _ => rgroupStep toks
+  | "groupby" :: _ => gbStep toks
+  | "groupby2" :: _ => gbStep toks
+  | "getgroup" :: _ => gbStep toks
   | _ => kernelStep toks
 
 end Pyn
